@@ -53,6 +53,8 @@ type srcSpec struct {
 
 func (x srcSpec) Sexp() string {
 	switch x.kind {
+	case "dflt": // the type's Default(nil) view; for the model: a literal default value
+		return "(lit " + x.t.Sexp() + " " + defaultVal(x.t).Sexp() + ")"
 	case "lit":
 		return "(lit " + x.t.Sexp() + " " + x.v.Sexp() + ")"
 	case "h":
@@ -63,6 +65,8 @@ func (x srcSpec) Sexp() string {
 
 func (s *hstate) resolve(x srcSpec) (view.View, error) {
 	switch x.kind {
+	case "dflt":
+		return x.t.Def().Default(nil), nil
 	case "lit":
 		return buildView(x.t, x.v)
 	case "h":
@@ -402,7 +406,7 @@ func (s *hstate) illTyped(o hop) bool {
 	}
 	var src *Ty
 	switch o.src.kind {
-	case "lit":
+	case "lit", "dflt":
 		src = o.src.t
 	case "h":
 		if o.src.h < len(s.tys) {
@@ -487,6 +491,7 @@ type histGen struct {
 	snaps  bool // C05: snapshots and copies
 	counts bool // C07: count ops (inserted values are pre-hashed handles or basic literals)
 	memos  bool // C06
+	useDefaults bool // C14: insert Default(nil) views of composite types
 }
 
 func currentLen(v view.View, t *Ty) uint64 {
@@ -526,8 +531,12 @@ func elemTyOf(t *Ty, i uint64) *Ty {
 	return nil
 }
 
-// litFor makes a literal source of type t (values kept small)
+// litFor makes a literal source of type t (values kept small); with useDefaults, composite
+// values are sometimes the type's own Default(nil) view (shared default structures)
 func (hg *histGen) litFor(t *Ty) srcSpec {
+	if hg.useDefaults && isComposite(t) && hg.r.Intn(2) == 0 {
+		return srcSpec{kind: "dflt", t: t}
+	}
 	return srcSpec{kind: "lit", t: t, v: hg.g.val(t)}
 }
 
